@@ -78,12 +78,25 @@ Inductive op :=
   (* a request whose miss is resolved by a scripted downstream handler writing through the cache's
      ResponseWriter.WriteMsg; out = BMiss means the downstream was reached (and its response admitted) *)
 | OpResolve (wireborn : bool) (w : bytes) (q : question) (cd : bool) (client : option scope) (d : down) (out : obs)
+  (* a background refresh (prefetch) of entry `expected` under key k: the refresh request went to the
+     sub-pipeline with CD = rcd and ECS source rscope (None: no subnet) and the answer for rq (id) was
+     offered to ReplaceIfCurrent; ok = the swap happened *)
+| OpRefresh (k : keysrc) (expected : N) (rq : question) (rcd : bool) (rscope : option scope) (id : N) (ok : bool)
+  (* a message-born request whose alias hit is completed by the Msg-path chase through a Queryer that
+     answers from Store.Get: ids of the stored responses in the reply, in order *)
+| OpServeMsgChase (q : question) (cd : bool) (out : list N)
 | OpLookup (q : question) (cd : bool) (out : option N)
 | OpGet (q : question) (cd : bool) (out : obs)
 | OpFail (q : question) (cd : bool) (p : option scope) (out : option N)
 | OpFailWire (w : bytes) (qtype qclass : N) (cd : bool) (out : option N)
 | OpCutL (q : question) (cd : bool) (out : option N)
 | OpCutWire (w : bytes) (qclass : N) (out : option N).
+
+(* the [ecs] policy of a history: forward ceilings (edns clamps the client's source to them) and
+   min_scope (ClampScope widens stored scopes to it) per family *)
+Record policy := mk_pol { p_fwd4 : N; p_fwd6 : N; p_min4 : N; p_min6 : N }.
+Definition clamp_client (pol : policy) (client : option scope) : option scope :=
+  option_map (fun c => mk_scope (sc_is4 c) (N.min (sc_bits c) (if sc_is4 c then p_fwd4 pol else p_fwd6 pol)) (sc_addr c)) client.
 
 Inductive case :=
   (* one wire name through every key function.
@@ -99,7 +112,7 @@ Inductive case :=
   (* CacheKey.Hash preimage and normalizeKeyScope *)
 | CaseHash (q : question) (cd : bool) (p : option scope) (pre : bytes) (norm : option scope)
   (* a history on one real Cache *)
-| CaseHist (ops : list op).
+| CaseHist (pol : policy) (ops : list op).
 
 (* ---- model run of a history *)
 
@@ -109,7 +122,7 @@ Fixpoint find_entry (id : N) (m : list (KB * entry)) : option entry :=
   | (_, e) :: r => if e_id e =? id then Some e else find_entry id r
   end.
 
-Definition step (s : cstore) (o : op) : cstore * bool :=
+Definition step (pol : policy) (s : cstore) (o : op) : cstore * bool :=
   match o with
   | OpSet neg k q cd p id =>
       (if neg then set_entry KB bytes_eqb true (key_of k) (mk_entry q cd (normalize_scope p) id None) s
@@ -151,18 +164,32 @@ Definition step (s : cstore) (o : op) : cstore * bool :=
   | OpFailSeedZ kz kc zone qc id => (seed_fzone KB bytes_eqb hid s_fz kz kc zone qc id s, true)
   | OpCutForge kn kc id => (forge_cuthash KB bytes_eqb hid s_cut kn kc id s, true)
   | OpServe wb w q cd client out =>
-      (s, obs_eqb (obs_of (serve_pipeline KB bytes_eqb hid s_fq s_fz s_cut s wb w q cd client)) out)
+      (s, obs_eqb (obs_of (serve_pipeline KB bytes_eqb hid s_fq s_fz s_cut s wb w q cd (clamp_client pol client))) out)
   | OpResolve wb w q cd client d out =>
-      let o := serve_pipeline KB bytes_eqb hid s_fq s_fz s_cut s wb w q cd client in
-      let client' := option_map (fun c => addr_prefix (sc_is4 c) (sc_addr c) (sc_bits c)) client in
+      let o := serve_pipeline KB bytes_eqb hid s_fq s_fz s_cut s wb w q cd (clamp_client pol client) in
+      let client' := option_map (fun c => addr_prefix (sc_is4 c) (sc_addr c) (sc_bits c)) (clamp_client pol client) in
       (match o with
        | OMiss =>
            match d with
-           | DAnswer bits id => writeback_answer KB bytes_eqb hid s_fq s_fz q cd client' bits id s
+           | DAnswer bits id => writeback_answer KB bytes_eqb hid s_fq s_fz (p_min4 pol) (p_min6 pol) q cd client' bits id s
            | DFail id => writeback_failure KB bytes_eqb hid s_fq q cd client' id s
            end
        | _ => s
        end, obs_eqb (obs_of o) out)
+  | OpRefresh k expected rq rcd rscope id ok =>
+      match find_entry expected (st_pos KB s ++ st_neg KB s) with
+      | Some ex =>
+          let '(s', r) := replace_if_current KB bytes_eqb (key_of k) ex rq id None s in
+          (s', Bool.eqb r ok)
+      | None => (s, negb ok)
+      end
+  | OpServeMsgChase q cd out =>
+      let ids :=
+        match serve_msg_exact KB bytes_eqb hid s q cd None with
+        | Some e => e_id e :: map e_id (msg_chase KB bytes_eqb hid s 10 (q_type q) cd e)
+        | None => []
+        end in
+      (s, bytes_eqb ids out)
   | OpLookup q cd out =>
       (s, on_eqb (option_map e_id (store_lookup KB bytes_eqb hid s q cd)) out)
   | OpGet q cd out =>
@@ -177,10 +204,10 @@ Definition step (s : cstore) (o : op) : cstore * bool :=
       (s, on_eqb (option_map c_id (cut_lookup_wire KB bytes_eqb hid s_cut s w qc)) out)
   end.
 
-Fixpoint run (s : cstore) (ops : list op) : bool :=
+Fixpoint run (pol : policy) (s : cstore) (ops : list op) : bool :=
   match ops with
   | [] => true
-  | o :: r => let '(s', ok) := step s o in ok && run s' r
+  | o :: r => let '(s', ok) := step pol s o in ok && run pol s' r
   end.
 
 Definition pres_of_wire (w : bytes) : option bytes := option_map present (parse_wire w).
@@ -197,7 +224,7 @@ Definition check_case (c : case) : bool :=
   | CaseEq w tests => forallb (fun t => Bool.eqb (wire_equals_pres w (fst t)) (snd t)) tests
   | CaseHash q cd p pre norm =>
       bytes_eqb (cachekey_pre q cd p) pre && oscope_eqb (normalize_scope p) norm
-  | CaseHist ops => run (empty_store KB) ops
+  | CaseHist pol ops => run pol (empty_store KB) ops
   end.
 
 (* ---- the specification, judged directly on the observations *)
@@ -276,19 +303,19 @@ Fixpoint chase_okb (ss : spec_state) (qt qc : N) (cd : bool) (prev : N) (rest : 
       end
   end.
 
-Definition spec_step_serve (ss : spec_state) (wb : bool) (w : bytes) (q : question) (cd : bool) (client : option scope) (out : obs) : spec_state * bool :=
+Definition spec_step_serve (pol : policy) (ss : spec_state) (wb : bool) (w : bytes) (q : question) (cd : bool) (client : option scope) (out : obs) : spec_state * bool :=
       (ss, match out with
            | BMiss => true
            | BHit id =>
-               hit_okb ss id q cd (option_map (fun c => addr_prefix (sc_is4 c) (sc_addr c) (sc_bits c)) client) &&
+               hit_okb ss id q cd (option_map (fun c => addr_prefix (sc_is4 c) (sc_addr c) (sc_bits c)) (clamp_client pol client)) &&
                (* a wire-born request is judged on the name its wire bytes spell *)
                (if wb then match pres_of_wire w with Some n => fold_eqb n (q_name q) | None => false end else true)
            | BCut id => cut_okb ss id q cd (match client with Some _ => true | None => false end)
            | BFail => existsb (fun f => fail_okb ss (fi_id f) q cd
-                                          (option_map (fun c => addr_prefix (sc_is4 c) (sc_addr c) (sc_bits c)) client)) (ss_fail ss)
+                                          (option_map (fun c => addr_prefix (sc_is4 c) (sc_addr c) (sc_bits c)) (clamp_client pol client))) (ss_fail ss)
            end).
 
-Definition spec_step (ss : spec_state) (o : op) : spec_state * bool :=
+Definition spec_step (pol : policy) (ss : spec_state) (o : op) : spec_state * bool :=
   match o with
   | OpSet _ _ q cd p id => (mk_ss (mk_ident id q cd (normalize_scope p) :: ss_ans ss) (ss_fail ss) (ss_cut ss) (ss_alias ss), true)
   | OpReplace _ expected rq id ok =>
@@ -316,20 +343,30 @@ Definition spec_step (ss : spec_state) (o : op) : spec_state * bool :=
   | OpFailSeedQ _ _ _ q cd p id => (mk_ss (ss_ans ss) (mk_fident id false q cd (normalize_scope p) :: ss_fail ss) (ss_cut ss) (ss_alias ss), true)
   | OpFailSeedZ _ _ zone qc id => (mk_ss (ss_ans ss) (mk_fident id true (mk_q zone 0 qc) false None :: ss_fail ss) (ss_cut ss) (ss_alias ss), true)
   | OpCutForge _ _ _ => (ss, true)
-  | OpServe wb w q cd client out => spec_step_serve ss wb w q cd client out
+  | OpServe wb w q cd client out => spec_step_serve pol ss wb w q cd client out
   | OpResolve wb w q cd client d out =>
-      let client' := option_map (fun c => addr_prefix (sc_is4 c) (sc_addr c) (sc_bits c)) client in
+      let client' := option_map (fun c => addr_prefix (sc_is4 c) (sc_addr c) (sc_bits c)) (clamp_client pol client) in
       match out with
       | BMiss =>
           (* the downstream's response was obtained for this question, CD and audience *)
           (match d with
            | DAnswer bits id =>
-               mk_ss (mk_ident id q cd (normalize_scope (writeback_scope client' bits)) :: ss_ans ss) (ss_fail ss) (ss_cut ss) (ss_alias ss)
+               mk_ss (mk_ident id q cd (normalize_scope (writeback_scope (p_min4 pol) (p_min6 pol) client' bits)) :: ss_ans ss) (ss_fail ss) (ss_cut ss) (ss_alias ss)
            | DFail id =>
                mk_ss (ss_ans ss) (mk_fident id false q cd (normalize_scope client') :: ss_fail ss) (ss_cut ss) (ss_alias ss)
            end, true)
-      | _ => spec_step_serve ss wb w q cd client out
+      | _ => spec_step_serve pol ss wb w q cd client out
       end
+  | OpRefresh _ expected rq rcd rscope id ok =>
+      (* the refreshed response was obtained for (rq, CD and subnet of the refresh request) *)
+      if ok then (mk_ss (mk_ident id rq rcd (normalize_scope rscope) :: ss_ans ss) (ss_fail ss) (ss_cut ss) (ss_alias ss),
+                  match find_ident expected (ss_ans ss) with Some _ => true | None => false end)
+      else (ss, true)
+  | OpServeMsgChase q cd out =>
+      (ss, match out with
+           | [] => true
+           | first :: rest => hit_okb ss first q cd None && chase_okb ss (q_type q) (q_class q) cd first rest
+           end)
   | OpLookup q cd out =>
       (ss, match out with None => true | Some id => hit_okb ss id q cd None end)
   | OpGet q cd out =>
@@ -353,10 +390,10 @@ Definition spec_step (ss : spec_state) (o : op) : spec_state * bool :=
            end)
   end.
 
-Fixpoint spec_run (ss : spec_state) (ops : list op) : bool :=
+Fixpoint spec_run (pol : policy) (ss : spec_state) (ops : list op) : bool :=
   match ops with
   | [] => true
-  | o :: r => let '(ss', ok) := spec_step ss o in ok && spec_run ss' r
+  | o :: r => let '(ss', ok) := spec_step pol ss o in ok && spec_run pol ss' r
   end.
 
 (* purge completeness: between a purge of q and the next admission, no exact-answer
@@ -368,7 +405,7 @@ Fixpoint purge_spec (purged : list question) (ops : list op) : bool :=
       let same (q : question) := existsb (fun pq => fold_eqb (q_name pq) (q_name q) && (q_type pq =? q_type q) && (q_class pq =? q_class q)) purged in
       match o with
       | OpPurge q => purge_spec (q :: purged) r
-      | OpSet _ _ q _ _ _ | OpReplace _ _ q _ _ | OpSetAlias _ q _ _ _ =>
+      | OpSet _ _ q _ _ _ | OpReplace _ _ q _ _ | OpSetAlias _ q _ _ _ | OpRefresh _ _ q _ _ _ _ =>
           purge_spec (filter (fun pq => negb (fold_eqb (q_name pq) (q_name q) && (q_type pq =? q_type q) && (q_class pq =? q_class q))) purged) r
       | OpServe _ _ q _ _ (BHit _) => negb (same q) && purge_spec purged r
       | OpResolve _ _ q _ _ _ (BHit _) => negb (same q) && purge_spec purged r
@@ -394,5 +431,5 @@ Definition spec_case (c : case) : bool :=
       forallb (fun t => Bool.eqb (snd t)
                           (match pres_of_wire w with Some n => fold_eqb n (fst t) | None => false end)) tests
   | CaseHash q cd p pre norm => true
-  | CaseHist ops => spec_run (mk_ss [] [] [] []) ops && purge_spec [] ops
+  | CaseHist pol ops => spec_run pol (mk_ss [] [] [] []) ops && purge_spec [] ops
   end.
